@@ -297,3 +297,11 @@ func classes(pkts []pkt) (map[string]int, map[int]model.Counters) {
 	}
 	return keyClass, sums
 }
+
+func parseIP(s string) []byte {
+	a, err := netip.ParseAddr(s)
+	if err != nil {
+		return nil
+	}
+	return a.AsSlice()
+}
